@@ -21,15 +21,15 @@ func init() {
 
 // crashCtx is what the base run leaves behind for the enumeration of crash images.
 type crashCtx struct {
-	r       *Runner
-	journal []vos.Entry
-	cfgAt   []Config // configuration in force while operation i ran (index i+1; index 0 = initial Open)
-	first   []int    // per mutation j: first journal index of its operation (-1 if it issued no I/O)
-	last    []int    // per mutation j: last journal index of its operation
-	kinds   []string
-	imgRoot string
-	rng     *vrt.Rand
-	images  int
+	r             *Runner
+	journal       []vos.Entry
+	cfgAt         []Config // configuration in force while operation i ran (index i+1; index 0 = initial Open)
+	first         []int    // per mutation j: first journal index of its operation (-1 if it issued no I/O)
+	last          []int    // per mutation j: last journal index of its operation
+	kinds         []string
+	imgRoot       string
+	rng           *vrt.Rand
+	images        int
 	followBatches int // batches to commit in the follow-up after a recovery (C04)
 }
 
@@ -314,12 +314,12 @@ func (ctx *crashCtx) allowed(k int, cut map[int]int, power bool) (lo, hi int) {
 // recoverImage materialises tree under a fresh root, runs the real Open + dump (+ optional follow-up) under the
 // scheduler and returns what happened.
 type recovery struct {
-	openErr  error
-	failure  string // panic / hang / inconsistent dump
-	dump     *Dump
-	fs       *vos.FS
-	root     string
-	oracle   string
+	openErr error
+	failure string // panic / hang / inconsistent dump
+	dump    *Dump
+	fs      *vos.FS
+	root    string
+	oracle  string
 }
 
 func (ctx *crashCtx) recoverImage(tree *vos.Tree, cfg Config, journalOn bool, follow func(db *kv.DB, rec *recovery) *kv.DB) *recovery {
